@@ -163,6 +163,12 @@ type world struct {
 	parked   atomic.Bool
 	resume   chan struct{}
 
+	// chain dimension
+	chain  string
+	adding map[string]*ent      // goroutine id -> entry being added (for the probe wrapper)
+	curOut map[string]*startRec // goroutine id -> scheduler start running on it
+	invs   []*invRec
+
 	// life cycle: Run() calls and the logger callback
 	runs        []*runRec
 	startEv     chan struct{}
@@ -200,7 +206,12 @@ func (w *world) now() time.Time {
 }
 
 func (w *world) newCron() {
-	opts := []cron.Option{cron.WithSeconds(), cron.WithChain(), cron.WithLogger(hookLogger{w})}
+	if w.chain == "" {
+		w.chain = "none"
+	}
+	w.adding = map[string]*ent{}
+	w.curOut = map[string]*startRec{}
+	opts := []cron.Option{cron.WithSeconds(), w.chainOption(), cron.WithLogger(hookLogger{w})}
 	w.logResume = make(chan struct{})
 	if w.zone.set() {
 		opts = append(opts, cron.WithLocation(w.zone.loc))
@@ -270,20 +281,6 @@ func (w *world) hook(name string) {
 	}
 }
 
-func (w *world) job(e *ent) {
-	w.mu.Lock()
-	s := &startRec{e: e, at: w.now(), stamp: w.stamp()}
-	w.starts = append(w.starts, s)
-	gate := w.gate
-	w.mu.Unlock()
-	if e.spec.Block {
-		<-gate
-	}
-	w.mu.Lock()
-	s.ret = w.stamp()
-	w.mu.Unlock()
-}
-
 func (w *world) begin(g int, kind string, e *ent, id cron.EntryID) *opRec {
 	w.mu.Lock()
 	defer w.mu.Unlock()
@@ -308,6 +305,15 @@ func (w *world) add(g int, s schedSpec) *opRec {
 	w.ents = append(w.ents, e)
 	w.mu.Unlock()
 	r := w.begin(g, "add", e, 0)
+	gid := curGID()
+	w.mu.Lock()
+	w.adding[gid] = e
+	w.mu.Unlock()
+	defer func() {
+		w.mu.Lock()
+		delete(w.adding, gid)
+		w.mu.Unlock()
+	}()
 	var id cron.EntryID
 	if s.Via == "addfunc" {
 		var err error
